@@ -40,7 +40,7 @@ def teardown(ctx):
 
 
 def plan(tier):
-    m = 3 if tier == 'quick' else 20
+    m = 3 if tier == 'quick' else 80
     return [('analysis', 1400 * m), ('short', 150 * m), ('long', 40 * m), ('derived', 150 * m), ('siblings', 60 * m)]
 
 
